@@ -244,6 +244,16 @@ def run(ctx, chk):
         chk.oblige("E3 %s owns the Reader its cached pointer comes from" % adt.split("::")[-1], owns,
                    key="E3|owns-reader|%s" % adt.split("::")[-1],
                    msg="a cached pointer into the mapping must not outlive the Reader that keeps the mapping in place")
+    # ---------------- E5 the source of truncated values for change records consults the *previous* overlay
+    csr = "vecdb::variants::raw::inner::read_write::ReadWriteRawVec::<I, T, S>::collect_stored_range"
+    O.body(csr)
+    r = O.reach(csr)
+    for k in P.children.get(csr, []):
+        r |= O.reach(k)
+    chk.oblige("E5 ReadWriteRawVec::collect_stored_range consults prev_updated before reading the region",
+               any(x.endswith("::prev_updated") for x in r), key="E5|collect_stored_range|prev_updated",
+               msg="values beyond the on-disk length exist only in the previous overlay after a rollback; reading them "
+                   "through the mmap fetches bytes past the region's length")
     # ---------------- E4 page entry after region write
     from props.c09 import CMP_WRITE, TW, CPUSH
     cw = O.body(CMP_WRITE)
